@@ -30,6 +30,8 @@ pub struct BlockSpec {
     /// added to the canonical timestamp of the height (siblings differ here)
     pub ts_offset: u64,
     pub miner: u8,
+    /// absolute timestamp override (worlds with dynamic difficulty choose epoch durations)
+    pub timestamp: Option<u64>,
 }
 
 pub fn miner_lock(miner: u8) -> Script {
@@ -82,7 +84,7 @@ pub fn assemble(snapshot: &Snapshot, spec: &BlockSpec) -> Result<BlockView, Stri
         .number(number)
         .epoch(epoch.number_with_fraction(number))
         .compact_target(epoch.compact_target())
-        .timestamp(time_for_height(number) + spec.ts_offset)
+        .timestamp(spec.timestamp.unwrap_or(time_for_height(number) + spec.ts_offset))
         .dao(dao)
         .transactions(all)
         .proposals(spec.proposals.clone())
